@@ -416,7 +416,13 @@ INTS = [0, 1, -1, 2, 7, -5, 12, 255, -300, 10**9 + 7, 2**63, -(2**64), 10**18, 1
 FLOATS = ["0.0", "-0.0", "1.5", "-2.25", "1e-07", "1e+16", "3.141592653589793", "inf", "-inf", "1e+300", "5e-324", "100.0",
           "0.1", "-0.5", "2.0", "123456.789"]
 STRS = ["", "a", "hello world", "12", "yes", "None", "null", "é", "日本語", "a\nb", " x ", "1.5", "true", "[1]", "ключ",
-        "~", "0x10", "1e3", "#c", "- a", "a: b", "'q'", '"', "\\", "-7", "off", "N", "x" * 40, "tab\there", "{}", "a,b"]
+        "~", "0x10", "1e3", "#c", "- a", "a: b", "'q'", '"', "\\", "-7", "off", "N", "x" * 40, "tab\there", "{}", "a,b"] + [
+    # text the YAML / JSON writers treat specially: line-break-like and invisible characters (NEL, LS, PS, NBSP, BOM, DEL),
+    # a lone CR / TAB, leading / trailing blanks, non-BMP, and strings that look like other YAML scalars
+    "first\x85second", "\x85", "a\u2028b", "\u2029", "x\u00a0y", "\ufeffbom", "del\x7f", "\t", "\tlead", "a\rb", "\r",
+    " lead", "trail ", "  ", "line1\nline2\n", "\n", "\U0001F600", "smile \U0001F600 end", "中", "2001-01-01", "1:30", "---", "...",
+    "? q", "!tag", "&a", "*a", "%d", "@at", "`bq", "|", ">", "no", "on", "0o17", ".inf", ".nan", "1_000", "+1", "0.5e-3", "=",
+]
 PATHS = ["a", "a/b", "/tmp/x", ".", "..", "/", "rel/ü.txt", "//net/x", "a b/c", "../up", "/usr/lib/python3"]
 # (name, members, mix-in, values): `class Level(str, Enum)` (NONE is falsy) and an int-mixed Enum (P0 is falsy) have members
 # that are also str / int instances
@@ -1010,23 +1016,36 @@ def _attach_meta(T, V):
     return V
 
 
+# The line protocol of the model driver is read back with str.splitlines(), which also breaks lines at U+0085 / U+2028 /
+# U+2029. The model treats these characters as opaque non-ASCII text, so on the MODEL side only (request and compared
+# observation alike) they are replaced by neighbouring code points that are not line breaks (order-preserving, not in the
+# pool); the real code always sees the real characters.
+_LINE_SAFE = {0x85: 0x86, 0x2028: 0x202A, 0x2029: 0x202B}
+
+
+def _line_safe(j):
+    import json
+
+    return json.loads(json.dumps(j, ensure_ascii=False).translate(_LINE_SAFE))
+
+
 def model_case(case, obs):
     op, c = case["op"], case["case"]
     if op == "ser.route":
-        return {"ty": c["ty"], "x": _attach_meta(c["ty"], c["x"])}
+        return _line_safe({"ty": c["ty"], "x": _attach_meta(c["ty"], c["x"])})
     if op == "ser.decode":
-        return {"ty": c["ty"], "raw": obs["raw_iter"]}
+        return _line_safe({"ty": c["ty"], "raw": obs["raw_iter"]})
     if op == "ser.encode":
-        return {"v": obs["v_iter"]}
+        return _line_safe({"v": obs["v_iter"]})
     if op == "ser.todict":
-        return {"x": obs["v_iter"]}
+        return _line_safe({"x": obs["v_iter"]})
     return c
 
 
 def project(case, obs):
     if case["op"] == "ser.route":
-        return obs["routes"]
-    return obs["out"]
+        return _line_safe(obs["routes"])
+    return _line_safe(obs["out"])
 
 
 def model_unmodelled(mo):
@@ -1157,6 +1176,10 @@ def nontrivial(case, obs):
     return type_depth(T) >= 1
 
 
+YAML_LOOKALIKES = {"null", "~", "yes", "no", "on", "off", "true", "N", "1e3", "0x10", "0o17", "2001-01-01", "1:30", "12", "1.5", "-7",
+                   ".inf", ".nan", "1_000", "+1", "0.5e-3", "---", "...", "=", "None"}
+
+
 def value_tags(T, V, acc):
     """Dimensions of the quantifier that the type kinds do not show: which values / shapes were reached."""
     k, t = T["k"], V["t"]
@@ -1166,7 +1189,20 @@ def value_tags(T, V, acc):
         n = int(V["v"])
         acc.add("val:int0" if n == 0 else ("val:bigint" if abs(n) >= 2**63 else ("val:neg" if n < 0 else "val:int")))
     elif t == "str":
-        acc.add("val:str-empty" if V["v"] == "" else ("val:nonascii" if not V["v"].isascii() else "val:str"))
+        sv = V["v"]
+        acc.add("val:str-empty" if sv == "" else ("val:nonascii" if not sv.isascii() else "val:str"))
+        if any(ch in sv for ch in "\x85\u2028\u2029"):
+            acc.add("str:unicode-linebreak")
+        if any(ch in sv for ch in "\u00a0\ufeff\x7f"):
+            acc.add("str:invisible")
+        if any(ch in sv for ch in "\t\r\n"):
+            acc.add("str:ascii-control")
+        if sv != sv.strip(" "):
+            acc.add("str:edge-blank")
+        if any(ord(ch) > 0xFFFF for ch in sv):
+            acc.add("str:non-bmp")
+        if sv in YAML_LOOKALIKES:
+            acc.add("str:yaml-lookalike")
     elif t == "float":
         acc.add("val:float-" + ("special" if V["v"] in ("inf", "-inf", "-0.0") else "plain"))
     elif t in ("list", "tuple", "set", "dict") and not V["v"]:
@@ -1192,6 +1228,11 @@ def value_tags(T, V, acc):
             value_tags(ti, x, acc)
     elif k == "dict" and t == "dict":
         acc.add(f"key:{T['key']['k']}")
+        for kk, _ in V["v"]:
+            if kk["t"] == "str":
+                value_tags(T["key"], kk, acc)
+                if not kk["v"].isascii() or kk["v"] in YAML_LOOKALIKES or any(ch in kk["v"] for ch in "\t\r\n\x7f"):
+                    acc.add("key:str-special")
         if T["val"]["k"] == "dc":
             acc.add("shape:dict<dc>")
         for kk, x in V["v"]:
